@@ -208,6 +208,16 @@ def _rio_reproject(
     else:
         src_transform = s_gbox.transform
 
+    def _stretch_nodata(arr: np.ndarray, nodata: Nodata) -> Nodata:
+        # nodata of a boolean raster goes through the same [0, 1] -> [0, 255]
+        # stretching as its pixels
+        if nodata is None or arr.dtype.name != "bool":
+            return nodata
+        return 255 if nodata else 0
+
+    src_nodata = _stretch_nodata(src, src_nodata)
+    dst_nodata = _stretch_nodata(dst, dst_nodata)
+
     # GDAL support for int8 is patchy, warp doesn't support it, so we need to convert to int16
     src, src_is_bool = _alias_or_convert(src)
     _dst, _ = _alias_or_convert(dst)
